@@ -195,6 +195,12 @@ func (e *Exec) callFunc(st *State, f *ssa.Function, bindings, args []Value, pos 
 	// Unmodelled external: arbitrary results and arbitrary effects on every
 	// memory location reachable from its arguments (it is assumed not to panic
 	// and not to touch anything else).  Listed in the evidence.
+	if readOnlyStdlib(key) {
+		// package-level functions of these standard-library packages read their
+		// arguments only; the result is arbitrary and may alias an argument
+		e.Externs["UNMODELLED "+key+" (arbitrary result; standard-library function assumed not to write through its arguments)"] = true
+		return e.freshResults(f.Signature.Results(), "unk_"+smt.Sanitize(f.Name()))
+	}
 	e.Externs["UNMODELLED "+key+" (arbitrary result; memory reachable from its arguments arbitrary)"] = true
 	for i, a := range args {
 		e.havocReach(st, a, fmt.Sprintf("unk%d", i), 0, map[*Object]bool{}, pos)
@@ -608,6 +614,12 @@ func (e *Exec) tryDefinitional(st, old *State, en Clause, vars map[string]specVa
 		return e.merge(g, Scalar{T: rhs.Read(i), Typ: el}, oldArr.Read(i))
 	}}
 	e.assume(st, c.Implies(g, c.And(c.Eq(sv.Len, rhs.Len), c.Not(sv.Alts[0].Cond))))
+	if g.IsTrue() {
+		// unconditional definition: the result is a view of the right-hand side
+		// (its length term is that of the sequence, so seq(result) is the
+		// sequence term itself and needs no name)
+		sv.Len = rhs.Len
+	}
 	return true
 }
 
@@ -1212,4 +1224,31 @@ func (e *Exec) allFuncs() map[*ssa.Function]bool {
 		}
 	}
 	return e.funcsMemo
+}
+
+
+// readOnlyStdlib recognises package-level functions of standard-library
+// packages that never write through their arguments.  Functions whose names
+// say otherwise (Append*, Encode*, Put*, Copy*, NewBuffer*) are excluded.
+func readOnlyStdlib(key string) bool {
+	i := strings.LastIndex(key, ".")
+	if i < 0 || strings.Contains(key, "(") {
+		return false
+	}
+	pkg, name := key[:i], key[i+1:]
+	switch pkg {
+	case "bytes", "strings", "unicode", "unicode/utf8", "unicode/utf16", "math", "math/bits", "errors", "strconv", "path", "path/filepath", "net/url", "encoding/hex", "encoding/base64", "crypto/subtle":
+	default:
+		return false
+	}
+	for _, p := range []string{"Append", "Encode", "Decode", "Put", "Copy", "NewBuffer", "ConstantTimeCopy", "XORBytes"} {
+		if strings.HasPrefix(name, p) {
+			// hex.EncodeToString / DecodeString / base64 string forms allocate
+			if strings.HasSuffix(name, "ToString") || strings.HasSuffix(name, "String") || name == "DecodedLen" || name == "EncodedLen" {
+				return true
+			}
+			return false
+		}
+	}
+	return true
 }
